@@ -273,6 +273,11 @@ def gen_edge(rng, n, tier):
             m = rng.randint(1, 4)
             pts = [[rng.uniform(-5, 9.5), rng.uniform(41.5, 51), rng.choice([0.0, rng.uniform(-100, 4800)])] for _ in range(m)]
             out.append({'kind': 'ptrack', 'pts': pts, 'first': rng.choice([None, 'enu', 'ctor']), 'base': [rng.uniform(-5, 9.5), rng.uniform(41.5, 51), 100.0]})
+        elif k < 0.8:
+            m = rng.randint(1, 4)
+            base = rand_geo(rng, model=False)
+            pts = [[max(-180.0, min(180.0, base[0] + rng.uniform(-0.2, 0.2))), max(-89.9, min(89.9, base[1] + rng.uniform(-0.2, 0.2))), rng.uniform(-1000, 10000)] for _ in range(m)]
+            out.append({'kind': 'xtrack', 'pts': pts, 'base': base, 'base2': [max(-180.0, min(180.0, base[0] + rng.uniform(-3, 3))), max(-89.9, min(89.9, base[1] + rng.uniform(-3, 3))), rng.uniform(-100, 1000)]})
         else:
             m = rng.randint(1, 5)
             base = rand_geo(rng, model=False)
@@ -296,6 +301,15 @@ def run_edge(case):
         b = p.toGeoCoords(2154)
         return {'p': [p.getX(), p.getY(), p.getZ()], 'back': [b.lon, b.lat, b.hgt]}
     pts = case['pts']
+    if case['kind'] == 'xtrack':
+        # a local track converted back with an explicit base while it still carries another recorded base (from an earlier round trip): the base given wins
+        tr = Track([Obs(GeoCoords(*p), ObsTime.readUnixTime(1000 + 10 * i)) for i, p in enumerate(pts)])
+        tr.toENUCoords(GeoCoords(*case['base'])); tr.toGeoCoords()
+        b2 = GeoCoords(*case['base2'])
+        for i, p in enumerate(pts):
+            tr.getObs(i).position = GeoCoords(*p).toENUCoords(b2)
+        tr.toGeoCoords(GeoCoords(*case['base2']))
+        return {'geo': [[o.position.getX(), o.position.getY(), o.position.getZ()] for o in tr], 'n': tr.size(), 'srid': tr.getSRID()}
     if case['kind'] == 'ptrack':
         obsl = [Obs(GeoCoords(*p), ObsTime.readUnixTime(1000 + 10 * i)) for i, p in enumerate(pts)]
         tr = Track(obsl, base=GeoCoords(*case['base'])) if case['first'] == 'ctor' else Track(obsl)
@@ -351,6 +365,13 @@ def oracle_edge(case, obs):
         lon, lat, h = case['g']; lo, la, hh = obs['back']
         if not (abs(lo - lon) <= 1e-9 and abs(la - lat) <= 1e-9 and hh == h):
             return 'geographic %r -> Lambert-93 %r -> geographic returns %r' % (case['g'], obs['p'], obs['back'])
+        return None
+    if case['kind'] == 'xtrack':
+        if obs['n'] != len(case['pts']) or obs['srid'] != 'Geo':
+            return 'track conversion changed the number of observations or did not produce geographic coordinates (%r)' % obs['srid']
+        for p, g in zip(case['pts'], obs['geo']):
+            if not (dlon(g[0], p[0]) <= 1e-9 and abs(g[1] - p[1]) <= 1e-9 and abs(g[2] - p[2]) <= 1e-3):
+                return 'local track (about %r, recorded base %r) -> geographic with the explicit base returns %r for %r' % (case['base2'], case['base'], g, p)
         return None
     if case['kind'] == 'ptrack':
         if obs['n'] != len(case['pts']):
